@@ -3,6 +3,9 @@ import PpciVerif.Proofs.FrameAlloc
 import PpciVerif.Proofs.RVLi
 import PpciVerif.Proofs.ArgLoc
 import PpciVerif.Proofs.RVFrame
+import PpciVerif.Spec.RVABI
+import PpciVerif.Gen.RVABI
+import PpciVerif.Gen.ARMABI
 /-!
 # C05 — cross-target machine code preserves IR behaviour: the slivers that are theorems
 
@@ -22,6 +25,10 @@ semantics of whole compiled functions is proved for any target; the end-to-end s
 * `riscv_frame_discipline` — prologue ∘ body ∘ epilogue of the riscv back-end (modelled instruction lists, run on a
   word-granular stack machine) restore `sp`, `ra`, `fp` and every saved callee-saved register for every list of saved
   registers, every frame size, every outgoing-argument area and every body that keeps `sp` and the save area;
+* `riscv_convention_*`, `arm_convention_*` — about the tables regenerated from the live architecture objects on every
+  run (`Gen.RVABI`, `Gen.ARMABI`): every allocatable register is destroyed-by-calls or saved by the callee (riscv) /
+  or is the frame pointer (arm); riscv `callee_save` is exactly the psABI set s0–s11 within the allocatable registers;
+  argument and return registers are among the call clobbers and are a0–a7;
 * `peephole_identity_without_jump_effects` — on targets whose instructions have no `effect()`
   (all but x86-64) the peephole stream hands every stream through unchanged.
 
@@ -191,6 +198,59 @@ theorem riscv_frame_discipline (stacksize extras : Int) (saved : List Nat) (hnd 
     let f := run (epilogue stacksize extras saved) (body (run (prologue stacksize extras saved) s))
     f.regs 2 = s.regs 2 ∧ f.regs 1 = s.regs 1 ∧ f.regs 8 = s.regs 8 ∧ ∀ r ∈ saved, f.regs r = s.regs r :=
   Proofs.RVFrame.frame_discipline stacksize extras saved hnd hsv s body hsp hmem
+
+/-! ### register conventions (tables regenerated from the live architecture objects, `decide`) -/
+
+section conventions
+open Gen.RVABI Gen.ARMABI
+
+/-- what the three conventions must satisfy: (1) no allocatable register is assumed to survive a call (= not in the call's
+    clobbers) without the callee saving it; (2) `callee_save` is exactly the psABI-preserved set s0–s11 inside the allocatable
+    registers; (3) nothing the callee must preserve is declared clobbered; (4) argument and return registers are a0–a7 and
+    are declared clobbered by the call. -/
+def RiscvConventionOk (allocatable calleeSave clobbers argRegs : List Nat) (retReg : Nat) : Prop :=
+  (∀ r ∈ allocatable, r ∈ clobbers ∨ r ∈ calleeSave) ∧
+  (∀ r, r ∈ calleeSave ↔ (r ∈ Spec.RVABI.calleeSaved ∧ r ∈ allocatable)) ∧
+  (∀ r ∈ clobbers, r ∉ Spec.RVABI.calleeSaved ∧ r ∈ Spec.RVABI.callerSaved) ∧
+  (∀ r ∈ retReg :: argRegs, r ∈ clobbers ∧ r ∈ Spec.RVABI.argRegs) ∧ argRegs.Nodup ∧ calleeSave.Nodup
+
+instance (a b c d : List Nat) (e : Nat) : Decidable (RiscvConventionOk a b c d e) := by
+  unfold RiscvConventionOk
+  have : Decidable (∀ r, r ∈ b ↔ (r ∈ Spec.RVABI.calleeSaved ∧ r ∈ a)) :=
+    decidable_of_iff ((∀ r ∈ b, r ∈ Spec.RVABI.calleeSaved ∧ r ∈ a) ∧ (∀ r ∈ Spec.RVABI.calleeSaved, r ∈ a → r ∈ b))
+      ⟨fun h r => ⟨h.1 r, fun hr => h.2 r hr.1 hr.2⟩, fun h => ⟨fun r hr => (h r).mp hr, fun r h1 h2 => (h r).mpr ⟨h1, h2⟩⟩⟩
+  exact inferInstance
+
+theorem riscv_convention_ok :
+    RiscvConventionOk riscv_allocatable riscv_calleeSave riscv_callClobbers riscv_argRegs riscv_retReg := by decide
+theorem riscv_rvc_convention_ok :
+    RiscvConventionOk riscv_rvc_allocatable riscv_rvc_calleeSave riscv_rvc_callClobbers riscv_rvc_argRegs riscv_rvc_retReg := by
+  decide
+theorem riscv_rvf_convention_ok :
+    RiscvConventionOk riscv_rvf_allocatable riscv_rvf_calleeSave riscv_rvf_callClobbers riscv_rvf_argRegs riscv_rvf_retReg := by
+  decide
+
+/-- ARM / Thumb use ppci's own convention (arguments R1–R4, result R0), so only the internal consistency is stated: every
+    allocatable register is destroyed by calls, saved by the callee, or the frame pointer (saved by the prologue);
+    argument and return registers are declared clobbered; nothing is both clobbered and callee-saved. -/
+def ArmConventionOk (allocatable calleeSave clobbers argRegs : List Nat) (retReg fp : Nat) : Prop :=
+  (∀ r ∈ allocatable, r ∈ clobbers ∨ r ∈ calleeSave ∨ r = fp) ∧
+  (∀ r ∈ retReg :: argRegs, r ∈ clobbers) ∧ (∀ r ∈ calleeSave, r ∉ clobbers ∧ r ∈ allocatable) ∧ argRegs.Nodup ∧ calleeSave.Nodup
+
+instance (a b c d : List Nat) (e f : Nat) : Decidable (ArmConventionOk a b c d e f) := by
+  unfold ArmConventionOk; exact inferInstance
+
+theorem arm_convention_ok :
+    ArmConventionOk arm_allocatable arm_calleeSave arm_callClobbers arm_argRegs arm_retReg arm_fp := by decide
+theorem arm_thumb_convention_ok :
+    ArmConventionOk arm_thumb_allocatable arm_thumb_calleeSave arm_thumb_callClobbers arm_thumb_argRegs arm_thumb_retReg arm_thumb_fp := by
+  decide
+
+/-- the seeded defect: `x27` missing from `callee_save` while the call does not clobber it -/
+example : ¬ RiscvConventionOk riscv_allocatable [9, 18, 19, 20, 21, 22, 23, 24, 25, 26] riscv_callClobbers riscv_argRegs riscv_retReg := by
+  decide
+
+end conventions
 
 /-! ### peephole on targets without `effect()` -/
 
